@@ -509,6 +509,11 @@ def display(m, v, out):
     if isinstance(v, Opaque) and v.kind == 'foreign_error':
         out.extend(Int('u8', b) for b in v.data.encode())
         return
+    if isinstance(v, Opaque) and v.kind in ('http::Error', 'io::Error', 'ParseIntError', 'Utf8Error', 'FromUtf8Error', 'ParseError', 'FromHexError'):
+        # rendering of dependency error values: the text is not modelled (marked so that specs do not rely on it)
+        m.ctx.events.append(('opaque_error_display', v.kind))
+        out.extend(Int('u8', b) for b in ('<%s: %s>' % (v.kind, v.data)).encode())
+        return
     raise Unsupported('Display of %r' % (v,))
 
 
@@ -1139,10 +1144,30 @@ def install(m):
 
     def unicode_case(m, es, method):
         cb = concrete_bytes(es)
-        if cb is None:
-            raise Unsupported('Unicode case mapping of symbolic non-ASCII text')
-        s = cb.decode('utf-8')
-        return mk_string(s.lower() if method == 'to_lowercase' else s.upper())
+        if cb is not None:
+            s = cb.decode('utf-8')
+            return mk_string(s.lower() if method == 'to_lowercase' else s.upper())
+        if method != 'to_lowercase':
+            raise Unsupported('Unicode upper-casing of symbolic non-ASCII text')
+        # symbolic text: exact for ASCII and the Latin-1 supplement (U+0080..U+00FF), which is all that Latin-1 decoded
+        # header bytes can contain; anything beyond must be concrete
+        out = []
+        i = 0
+        while i < len(es):
+            ch, w = decode_char(m, es, i)
+            i += w
+            if not ch.sym:
+                out.extend(Int('u8', b) for b in chr(ch.v).lower().encode('utf-8'))
+                continue
+            z = ch.v
+            if m.ctx.branch(z3.ULT(z, 0x80)):
+                lo = z3.If(z3.And(z3.UGE(z, 0x41), z3.ULE(z, 0x5A)), z + 32, z)
+            elif m.ctx.branch(z3.ULT(z, 0x100)):
+                lo = z3.If(z3.And(z3.UGE(z, 0xC0), z3.ULE(z, 0xDE), z != 0xD7), z + 32, z)
+            else:
+                raise Unsupported('Unicode lower-casing of symbolic text beyond U+00FF')
+            out.extend(char_utf8(m, Int('char', z3.simplify(lo))))
+        return new_string(out)
 
     @reg('eq_ignore_ascii_case')
     def _eq_ignore(m, a, c, rt):
